@@ -296,6 +296,8 @@ def _solve(m, desc, spec):
 
 
 def check_case(case, ctx):
+    if case.get('kind') == 'folders':
+        return check_folders(case, ctx)
     import shutil
     import openpyxl
     import formulas
@@ -378,13 +380,120 @@ def check_case(case, ctx):
     shutil.rmtree(d, ignore_errors=True)
 
 
+# -- workbooks in sub-folders (two of them with the same file name) ------------------------
+
+def make_folders_case(seed, i):
+    rng = random.Random('fvmon/C16/folders/%s/%s' % (seed, i))
+    folders = rng.sample(['sub', 'other', 'y2023', 'deep/er', 'Data Files'], rng.randint(1, 3))
+    same_name = rng.random() < 0.6
+    books = []
+    for j, f in enumerate(folders):
+        books.append([f, 'b.xlsx' if same_name else 'b%d.xlsx' % j,
+                      float(rng.randint(1, 90)), rng.choice(('txt', True, 2.5, '#N/A'))])
+    return {'kind': 'folders', 'id': '%s/%s' % (seed, i), 'books': books,
+            'override': rng.choice((None, float(rng.randint(100, 900))))}
+
+
+def check_folders(case, ctx):
+    import shutil
+    import openpyxl
+    import formulas
+    from .. import worker
+    d = os.path.join(worker.scratch_dir(), 'c16f')
+    shutil.rmtree(d, ignore_errors=True)
+    os.makedirs(d)
+    main = openpyxl.Workbook()
+    ms = main.active
+    ms.title = 'S'
+    want = {}
+    for j, (folder, name, num, other) in enumerate(case['books']):
+        os.makedirs(os.path.join(d, folder), exist_ok=True)
+        wb = openpyxl.Workbook()
+        ws = wb.active
+        ws.title = 'T'
+        ws['A1'], ws['A2'], ws['B1'] = num, other, '=A1*2'
+        wb.save(os.path.join(d, folder, name))
+        ms['A%d' % (j + 1)] = "='%s/[%s]T'!A1+1" % (folder, name)
+        ms['B%d' % (j + 1)] = "='%s/[%s]T'!B1" % (folder, name)
+        ms['C%d' % (j + 1)] = "=IFERROR('%s/[%s]T'!A2,\"e\")" % (folder, name)
+        key = '%s/%s' % (folder.upper(), name.upper())
+        want[key] = {'A1': num, 'A2': other, 'B1': num * 2}
+        want.setdefault('MAIN.XLSX', {}).update({
+            'A%d' % (j + 1): num + 1, 'B%d' % (j + 1): num * 2,
+            'C%d' % (j + 1): 'e' if other == '#N/A' else other})
+    main.save(os.path.join(d, 'main.xlsx'))
+    w = {'case': case}
+    ctx.case(('folders', case['id']))
+    try:
+        m = formulas.ExcelModel().loads(os.path.join(d, 'main.xlsx')).finish()
+        inputs = {}
+        if case['override'] is not None:
+            folder, name, num, other = case['books'][0]
+            inputs["'%s/[%s]T'!A1" % (folder, name)] = case['override']
+            key = '%s/%s' % (folder.upper(), name.upper())
+            v = case['override']
+            want[key].update({'A1': v, 'B1': v * 2})
+            want['MAIN.XLSX'].update({'A1': v + 1, 'B1': v * 2})
+        sol = m.calculate(inputs=inputs) if inputs else m.calculate()
+        out = os.path.join(d, 'out')
+        m.write(solution=sol, dirpath=out)
+    except Exception as ex:
+        ctx.violation('folders:write-raised:%s' % type(ex).__name__, dict(
+            w, observed='%s: %s' % (type(ex).__name__, str(ex)[:200]),
+            accepted=['one file per workbook, in its folder below dirpath']))
+        return
+    files = {}
+    for r_, _, fs in os.walk(out):
+        for f in fs:
+            files[os.path.relpath(os.path.join(r_, f), out).replace(os.sep, '/').upper()] = \
+                os.path.join(r_, f)
+    ctx.count('monitor.folder-books', len(want))
+    for key, cells in sorted(want.items()):
+        if key not in files:
+            ctx.violation('folders:file-not-written', dict(
+                w, book=key, observed=sorted(files), accepted=[key + ' below dirpath']))
+            return
+        ws = openpyxl.load_workbook(files[key]).worksheets[0]
+        for addr, v in sorted(cells.items()):
+            got = ws[addr].value
+            ctx.count('monitor.folder-cells')
+            if got != v or (isinstance(v, bool) != isinstance(got, bool)):
+                ctx.violation('folders:written-differs', dict(
+                    w, book=key, cell=addr, observed=repr(got), accepted=[repr(v)]))
+                return
+    if set(files) - set(want):
+        ctx.violation('folders:extra-file', dict(
+            w, observed=sorted(set(files) - set(want)), accepted=sorted(want)))
+        return
+    try:
+        diff = m.compare(*files.values(), solution=sol)
+    except Exception as ex:
+        ctx.count('folders.compare-raised')
+        ctx.see('folders-compare-raised', '%s: %s' % (type(ex).__name__, str(ex)[:80]))
+        return
+    ctx.count('monitor.folder-compare')
+    if diff:
+        ctx.violation('folders:compare-reports-difference', dict(
+            w, observed=repr(diff[:3])[:300], accepted=['[]']))
+
+
 def plan(tier, seed):
     n, per = (96, 6) if tier == 'quick' else (1600, 50)
-    return [{'kind': 'write', 'lo': lo, 'hi': lo + per} for lo in range(0, n, per)]
+    specs = [{'kind': 'write', 'lo': lo, 'hi': lo + per} for lo in range(0, n, per)]
+    nf = 60 if tier == 'quick' else 600
+    specs += [{'kind': 'folders', 'lo': lo, 'hi': lo + 30} for lo in range(0, nf, 30)]
+    return specs
 
 
 def run(spec, ctx):
     case = None
+    if spec['kind'] == 'folders':
+        for i in range(spec['lo'], spec['hi']):
+            case = make_folders_case(spec['seed'], i)
+            ctx.open_case({'kind': 'folders', 'id': case['id']})
+            check_folders(case, ctx)
+        ctx.sample({'folders': case['books']})
+        return
     for i in range(spec['lo'], spec['hi']):
         case = make_case(spec['seed'], i)
         ctx.open_case({'kind': 'write', 'id': i})
@@ -398,7 +507,8 @@ def finalize(agg, tier):
     for k, floor in (('monitor.written-cells', 20000), ('written.fresh', 5000),
                      ('written.reused', 3000), ('written.loaded', 3000),
                      ('written.disk', 5000), ('monitor.untouched-cells', 500),
-                     ('monitor.compare-calls', 200)):
+                     ('monitor.compare-calls', 200), ('monitor.folder-cells', 300),
+                     ('monitor.compare-single-file', 60)):
         if c.get(k, 0) < floor:
             inc.append('monitor %s saw %d events (< %d)' % (k, c.get(k, 0), floor))
     return {'inconclusive': inc}
